@@ -244,7 +244,22 @@ def canon_model(s, b):
         return ("bad", repr(s)), []
 
 
+class Capped:
+    """at most CAP replays per kind of correspondence difference (one cause usually shows up thousands of times)"""
+    CAP = 25
+
+    def __init__(self, rep):
+        self.rep, self.n = rep, {}
+
+    def violation(self, payload, **kw):
+        k = payload["kind"][:60]
+        self.n[k] = self.n.get(k, 0) + 1
+        if self.n[k] <= self.CAP:
+            self.rep.violation(payload, **kw)
+
+
 def run(rep, tier, seed):
+    capped = Capped(rep)
     ob, dis, details, failures = fw.check_props(PROP_FILE, THEOREMS, tier)
     harness = fw.build_harness()
     driver = fw.build_model_driver()
@@ -374,7 +389,7 @@ def run(rep, tier, seed):
         if ok and ro[0] in ("ok", "insufficient") and len(mcalls) != rcalls_n:
             ok = False
         if not ok and ro[0] in ("ok", "insufficient", "err_duplicate"):
-            rep.violation({"property": PROP, "kind": "model loop (Batched.v batched_full / t_batched) and is_authorized_batched disagree; "
+            capped.violation({"property": PROP, "kind": "model loop (Batched.v batched_full / t_batched) and is_authorized_batched disagree; "
                            "transfer of c15_monotone / c15_insufficient is lost for this input",
                            "budget": r["budget"], "rust": r, "model": repr(m), "case": rust_cmd(cases[i], [r["budget"]])},
                           no_failing_input=True)
@@ -391,7 +406,7 @@ def run(rep, tier, seed):
         if ro[0] not in ("ok", "insufficient"):
             continue        # an error outcome is reported by the oracle above
         if mo != ro or mcalls != rcalls:
-            rep.violation({"property": PROP, "kind": "chain model (Batched.v c_batched_full: loop + chain evaluator, no facts from the implementation) "
+            capped.violation({"property": PROP, "kind": "chain model (Batched.v c_batched_full: loop + chain evaluator, no facts from the implementation) "
                            "and is_authorized_batched disagree on the outcome or on the ids requested per iteration",
                            "budget": r["budget"], "rust": r, "model": repr(m), "model_cmd": repr(mcmd),
                            "case": rust_cmd(cases[i], [r["budget"]])})
@@ -407,7 +422,7 @@ def run(rep, tier, seed):
         "evaluations": stats["decided_runs"] + stats["insufficient_runs"], "distinct_nontrivial": len(distinct),
         "rule": "%d tgen cases (well-typed policies, conformant stores with absent entities) + %d chain cases modelled without facts (stream C) + %d Node-schema cases (attribute chains <= 5 hops, in-sets, tags, context entity, action group, dangling references, missing principal/resource); 6 loader variants; budgets 0..8, 1000, n, n+1; evaluated = cases whose policies validate (strict) and whose request validates; non-trivial = first deciding budget >= 2" % (n_tgen, n_chain, n_node),
         "cases_evaluated": evaluated, "traces_validated_against_impl": stats["model_compared"] + stats["chain_model_compared"],
-        "vm_compute_crosscheck_cases": nx, "histograms": stats, "samples": samples or [{"case": rust_cmd(cases[-1], SMALL)}],
+        "vm_compute_crosscheck_cases": nx, "histograms": stats, "correspondence_differences": capped.n, "samples": samples or [{"case": rust_cmd(cases[-1], SMALL)}],
     }
     rep.assumptions = ["policies validate in strict mode and the request validates against the schema (others are skipped and counted)",
                        "store parsed with the schema (conformant, action entities included)",
